@@ -83,8 +83,9 @@ class Scatterer(HoloPyObject):
         translated : Scatterer
             A copy of this scatterer translated to a new location
         """
-        if coord2 is None and len(ensure_array(coord1)) == 3:
-            # entered translation vector
+        if coord2 is None and np.shape(ensure_array(coord1)) == (3,):
+            # entered translation vector (three numbers: not a column
+            # vector or a matrix, which would broadcast against the center)
             trans_coords = ensure_array(coord1)
         elif coord2 is not None and coord3 is not None:
             # entered 3 coords
